@@ -275,6 +275,16 @@ def wellFormed (d : Dump) (edges : List Edge) : Bool :=
 
 /-! ## From a program (sequence of `Stream` API calls) to the job graph -/
 
+/-- One call inside a loop body `|s, _| s.….…` (the body works on one stream). -/
+inductive BodyOp where
+  /-- `map`: no block -/
+  | noop
+  /-- `shuffle` / `group_by`: `split_block` with a non-`OnlyOne` strategy -/
+  | exchange
+  /-- a nested `replay` with the identity body (its state stream continues the outer body) -/
+  | replay
+  deriving Repr, DecidableEq, Inhabited
+
 /-- The API calls that create blocks. Streams are named by numbers chosen by the caller. -/
 inductive Op where
   /-- `ctx.stream(source)` with `source.replication() = r` -/
@@ -297,8 +307,10 @@ inductive Op where
   | sinkEach (s : Nat)
   /-- `collect_vec`: `replication(One)` + `finalize_block` -/
   | sinkVec (s : Nat)
-  /-- `iterate` with the identity body; outputs (state stream, items stream) -/
-  | iterate (s outState outItems : Nat)
+  /-- `iterate` with the given loop body; outputs (state stream, items stream) -/
+  | iterate (s outState outItems : Nat) (body : List BodyOp)
+  /-- `replay` with the given loop body (no nested `replay` inside); output = the state stream -/
+  | replay (s out : Nat) (body : List BodyOp)
   deriving Repr, Inhabited
 
 /-- an open stream: its current (not yet scheduled) block and `block.scheduling.replication` -/
@@ -359,6 +371,26 @@ def cloneMany (b : Builder) (blk : Nat) (repl : Replication) : List Nat → Buil
   | [] => b
   | n :: ns => cloneMany (cloneBlock b blk repl n) blk repl ns
 
+/-- One call of a loop body on the current open block `cur` (always `Unlimited`: `Iterate`/`Start`
+    sources, or the asserted-unlimited input block of `replay`). Returns the new current block.
+    `replay` (replay.rs:283-357, identity body): leader block `lr` (`IterationLeader`: `One`) is
+    created first; `cur` gets `Replay … IterationEnd` and is scheduled; `cur → lr`, `lr → cur`;
+    `lr.split_block(Random)` creates the block that carries the state stream on. -/
+def bodyStep (p : Builder × Nat) : BodyOp → Builder × Nat
+  | .noop => p
+  | .exchange =>
+    let (b, cur) := p
+    ({ b with next := b.next + 1,
+              blocks := b.blocks ++ [⟨cur, .unlimited, false⟩],
+              edges := b.edges ++ [⟨cur, b.next, false⟩] }, b.next)
+  | .replay =>
+    let (b, cur) := p
+    let lr := b.next
+    let lo := b.next + 1
+    ({ b with next := b.next + 2,
+              blocks := b.blocks ++ [⟨cur, .unlimited, false⟩, ⟨lr, .one, false⟩],
+              edges := b.edges ++ [⟨cur, lr, false⟩, ⟨lr, cur, false⟩, ⟨lr, lo, false⟩] }, lo)
+
 /-- One API call. An op naming a stream that does not exist (or an output name that is taken) is
     skipped, so that every subset of a program is a program. After a panic nothing happens. -/
 def step (b : Builder) (op : Op) : Builder :=
@@ -417,7 +449,7 @@ def step (b : Builder) (op : Op) : Builder :=
     | some st =>
       let (b1, id) := (b.remove s).splitBlock st true
       { b1 with blocks := b1.blocks ++ [⟨id, Replication.unlimited.intersect .one, false⟩] }
-  | .iterate s outState outItems =>
+  | .iterate s outState outItems body =>
     match b.find s with
     | none => b
     | some st =>
@@ -425,22 +457,41 @@ def step (b : Builder) (op : Op) : Builder :=
       if st.repl != .unlimited then
         { b with panic := some "panic:other:cannot_have_an_iteration_block_with_limi" }
       else
-        -- iterate.rs:399-538 with `body = |s, _| s`
+        -- iterate.rs:399-538
         let leader := b.next          -- IterationLeader: Replication::One
-        let iter := b.next + 1        -- Iterate: Unlimited, closed by the body's split_block(OnlyOne)
+        let iter := b.next + 1        -- Iterate: Unlimited
         let output := b.next + 2      -- Start::single(iter): Unlimited
-        let body := b.next + 3        -- second block of the body, ends with the feedback End(OnlyOne)
-        let state := b.next + 4       -- Start::single(body) → fold → IterationEnd
-        let leaderOut := b.next + 5   -- leader.split_block(Random)
-        { b with
-          next := b.next + 6,
-          blocks := b.blocks ++ [⟨iter, .unlimited, true⟩, ⟨state, .unlimited, false⟩,
-            ⟨body, .unlimited, true⟩, ⟨st.block, st.repl, true⟩, ⟨leader, .one, false⟩],
-          edges := b.edges ++ [⟨iter, body, false⟩, ⟨st.block, iter, false⟩, ⟨body, state, false⟩,
-            ⟨state, leader, false⟩, ⟨leader, iter, false⟩, ⟨body, iter, false⟩,
-            ⟨iter, output, true⟩, ⟨leader, leaderOut, false⟩],
+        -- the body runs on the Iterate block; its last block is closed by split_block(OnlyOne)
+        let (b2, last) := body.foldl bodyStep ({ b with next := b.next + 3 }, iter)
+        let bodyEnd := b2.next        -- ends with the feedback End(OnlyOne)
+        let state := b2.next + 1      -- Start::single(bodyEnd) → fold → IterationEnd
+        let leaderOut := b2.next + 2  -- leader.split_block(Random)
+        { b2 with
+          next := b2.next + 3,
+          blocks := b2.blocks ++ [⟨last, .unlimited, true⟩, ⟨state, .unlimited, false⟩,
+            ⟨bodyEnd, .unlimited, true⟩, ⟨st.block, st.repl, true⟩, ⟨leader, .one, false⟩],
+          edges := b2.edges ++ [⟨last, bodyEnd, false⟩, ⟨st.block, iter, false⟩,
+            ⟨bodyEnd, state, false⟩, ⟨state, leader, false⟩, ⟨leader, iter, false⟩,
+            ⟨bodyEnd, iter, false⟩, ⟨iter, output, true⟩, ⟨leader, leaderOut, false⟩],
           streams := (b.remove s).streams ++
             [⟨outState, leaderOut, .unlimited⟩, ⟨outItems, output, .unlimited⟩] }
+  | .replay s out body =>
+    match b.find s with
+    | none => b
+    | some st =>
+      if !b.fresh out then b else
+      if st.repl != .unlimited then
+        { b with panic := some "panic:other:cannot_have_an_iteration_block_with_limi" }
+      else
+        -- replay.rs:283-357: the leader first, then the body on the input block itself
+        let lr := b.next
+        let (b2, last) := body.foldl bodyStep ({ b with next := b.next + 1 }, st.block)
+        let lo := b2.next
+        { b2 with
+          next := b2.next + 1,
+          blocks := b2.blocks ++ [⟨last, .unlimited, false⟩, ⟨lr, .one, false⟩],
+          edges := b2.edges ++ [⟨last, lr, false⟩, ⟨lr, st.block, false⟩, ⟨lr, lo, false⟩],
+          streams := (b.remove s).streams ++ [⟨out, lo, .unlimited⟩] }
 
 /-- every stream still open gets a `for_each` sink -/
 def finish (b : Builder) : Builder :=
